@@ -221,8 +221,8 @@ fn c14_csv_rows_quoted_empty() {
 #[kani::proof]
 #[kani::unwind(8)]
 fn c14_csv_rows_basic() {
-    rows_case(b"", false, &[]);
-    rows_case(b"\n", false, &[&[0]]);
+    // (what an empty text or a lone newline denotes - no row, [] or [null] - is left open by
+    // the property: "`[]` versus `[null]` excepted")
     rows_case(b",", false, &[&[0, 0]]);
     rows_case(b"\"\",\n\"\"\n", false, &[&[1, 0], &[1]]);
 }
